@@ -1,4 +1,4 @@
-"""AST -> core update steps of further routines (T-gen, second tie for C03/C12, C15, C17/C06).
+"""AST -> core update steps of further routines (T-gen, second tie for C03/C12, C15, C16, C17/C06).
 
 Run on every check run (`generate()`), it re-reads /repo's *current* source (path from common.REPO) and re-emits
 
@@ -13,6 +13,11 @@ Run on every check run (`generate()`), it re-reads /repo's *current* source (pat
   family 'util'   bct/utils/other.py           threshold_absolute, binarize, normalize, invert, logtransform (guard)
                   bct/utils/miscellaneous_utilities.py   teachers_round, cuberoot, pick_four_unique_nodes_quickly
                   -> lean/BctVerif/Gen/CoresUtil.lean      (IR: Model/CoreIRUtil.lean, links: Props/CoresUtil.lean)
+  family 'comp'   bct/algorithms/clustering.py get_components: every statement (guard, binarize, fill_diagonal, edge_map
+                                               comprehension, the merge loop over union_sets, comps / comp_sizes comprehensions, return)
+                  -> lean/BctVerif/Gen/CoresComp.lean      (IR: Model/CoreIRComp.lean, links: Props/CoresComp.lean)
+  family 'dijk'   bct/algorithms/distance.py   distance_wei: only the body of `for v in V:` (the relaxation block) and the loop headers
+                  -> lean/BctVerif/Gen/CoresDijk.lean      (IR: Model/CoreIRDijk.lean, links: Props/CoresDijk.lean)
 
 as *data* (one IR value per routine) together with one obligation per routine (`… Ok ir = true := by first | decide | fail "…"`)
 and the link theorem instantiated at the extracted value.
@@ -1438,9 +1443,173 @@ def family_comp():
             'problems': list(r.problems)}
 
 
+# ====================================================================== family 'dijk'
+
+class DijkX:
+    """statement mapping for the relaxation block of distance_wei (Model/CoreIRDijk.lean: LEx, Stmt)"""
+
+    def __init__(self, scalars):
+        self.scalars = set(scalars)
+        self.idxs = set()
+
+    def sub2(self, node):
+        """M[a, b] with names -> (M, a, b)"""
+        if (isinstance(node, ast.Subscript) and isinstance(node.value, ast.Name) and isinstance(node.slice, ast.Tuple)
+                and len(node.slice.elts) == 2 and all(isinstance(e, ast.Name) for e in node.slice.elts)):
+            return node.value.id, node.slice.elts[0].id, node.slice.elts[1].id
+        return None
+
+    def lex(self, node):
+        # X.flatten() of a one-dimensional array is the array
+        if (isinstance(node, ast.Call) and isinstance(node.func, ast.Attribute) and node.func.attr == 'flatten' and not node.args
+                and not node.keywords):
+            return self.lex(node.func.value)
+        t = self.sub2(node)
+        if t and t[1] in self.scalars and t[2] in self.idxs:
+            return '(.rowAt %s %s %s)' % tuple(map(q, t))
+        if isinstance(node, ast.BinOp) and isinstance(node.op, ast.Add):
+            t = self.sub2(node.left)
+            if t and t[1] in self.scalars and t[2] in self.scalars:
+                return '(.addScalar %s %s %s %s)' % (q(t[0]), q(t[1]), q(t[2]), self.lex(node.right))
+        raise Unrec(node, 'unrecognised one-dimensional expression %s' % src_of(node))
+
+    def stmt(self, st):
+        if isinstance(st, ast.Assign) and len(st.targets) == 1:
+            t, v = st.targets[0], st.value
+            # x, = np.where(M[r, :])
+            if isinstance(t, ast.Tuple) and len(t.elts) == 1 and isinstance(t.elts[0], ast.Name) and np_call(v, 'where', 1) and not v.keywords:
+                a = v.args[0]
+                if (isinstance(a, ast.Subscript) and isinstance(a.value, ast.Name) and isinstance(a.slice, ast.Tuple) and len(a.slice.elts) == 2
+                        and isinstance(a.slice.elts[0], ast.Name) and a.slice.elts[0].id in self.scalars
+                        and isinstance(a.slice.elts[1], ast.Slice) and a.slice.elts[1].lower is None and a.slice.elts[1].upper is None
+                        and a.slice.elts[1].step is None):
+                    self.idxs.add(t.elts[0].id)
+                    return '.whereRow %s %s %s' % (q(t.elts[0].id), q(a.value.id), q(a.slice.elts[0].id))
+            if isinstance(t, ast.Name):
+                # x = np.array([a, b])
+                a = np_call(v, 'array', 1)
+                if a and not v.keywords and isinstance(a[0], ast.List) and len(a[0].elts) == 2:
+                    return '.stack2 %s %s %s' % (q(t.id), self.lex(a[0].elts[0]), self.lex(a[0].elts[1]))
+                # x = np.min(td, axis=0) / np.argmin(td, axis=0)
+                for fn_, c in (('min', 'minAxis0'), ('argmin', 'argminAxis0')):
+                    a = np_call(v, fn_, 1)
+                    if a and len(v.keywords) == 1 and const_nat(kw(v, 'axis')) == 0 and isinstance(a[0], ast.Name):
+                        return '.%s %s %s' % (c, q(t.id), q(a[0].id))
+                # x = ix[np.where(wi == lit)]
+                if (isinstance(v, ast.Subscript) and isinstance(v.value, ast.Name) and v.value.id in self.idxs and np_call(v.slice, 'where', 1)
+                        and not v.slice.keywords):
+                    c = v.slice.args[0]
+                    if (isinstance(c, ast.Compare) and len(c.ops) == 1 and isinstance(c.ops[0], ast.Eq) and isinstance(c.left, ast.Name)
+                            and const_nat(c.comparators[0]) is not None):
+                        self.idxs.add(t.id)
+                        return '.selectEq %s %s %s %d' % (q(t.id), q(v.value.id), q(c.left.id), const_nat(c.comparators[0]))
+            tt = self.sub2(t)
+            if tt and tt[1] in self.scalars and tt[2] in self.idxs:
+                # M[r, ix] = src
+                if isinstance(v, ast.Name):
+                    return '.storeRow %s %s %s %s' % (q(tt[0]), q(tt[1]), q(tt[2]), q(v.id))
+                # M[r, ix] = M2[r2, c2] + lit
+                if isinstance(v, ast.BinOp) and isinstance(v.op, ast.Add) and const_nat(v.right) is not None:
+                    s2 = self.sub2(v.left)
+                    if s2 and s2[1] in self.scalars and s2[2] in self.scalars:
+                        return '.storeRowScalar %s %s %s %s %s %s %d' % (tuple(map(q, tt)) + tuple(map(q, s2)) + (const_nat(v.right),))
+        raise Unrec(st, 'unrecognised statement %s' % src_of(st))
+
+
+def extract_dijk(fn, path):
+    r = Routine('distance_wei', path)
+    r.line = fn.lineno
+    body = body_wo_doc(fn)
+    outers = [st for st in body if isinstance(st, ast.For)]
+    if len(outers) != 1:
+        r.bad(fn, 'expected exactly one outer `for` loop, found %d' % len(outers)); return r
+    o = outers[0]
+    f = {'rowVar': '?', 'rowBound': '?', 'nodeVar': '?', 'nodeList': '?', 'body': '[]'}
+    r.fields = f
+    try:
+        f['rowVar'], b = range_of(ast.comprehension(target=o.target, iter=o.iter, ifs=[], is_async=0), 'the row loop')
+        f['rowBound'] = name_of(b, 'range')
+    except Unrec as e:
+        r.bad(o, e.msg)
+    whiles = [st for st in o.body if isinstance(st, ast.While)]
+    if len(whiles) != 1 or o.orelse:
+        r.bad(o, 'expected exactly one `while` loop in the row loop, found %d' % len(whiles)); return r
+    w = whiles[0]
+    if not (isinstance(w.test, ast.Constant) and w.test.value is True and not w.orelse):
+        r.bad(w, 'expected `while True:`')
+    inner = [st for st in w.body if isinstance(st, ast.For)]
+    if len(inner) != 1:
+        r.bad(w, 'expected exactly one `for` loop in the `while` loop, found %d' % len(inner)); return r
+    blk = inner[0]
+    if not (isinstance(blk.target, ast.Name) and isinstance(blk.iter, ast.Name) and not blk.orelse):
+        r.bad(blk, 'unrecognised loop header %s' % src_of(blk)); return r
+    f['nodeVar'], f['nodeList'] = blk.target.id, blk.iter.id
+    x = DijkX([f['rowVar'], f['nodeVar']])
+    out = []
+    for st in blk.body:
+        try:
+            out.append(x.stmt(st))
+        except Unrec as e:
+            r.bad(e.node if hasattr(e.node, 'lineno') else st, e.msg)
+    f['body'] = '[' + ',\n      '.join(out) + ']'
+    r.parts = {'body': lines_of([blk])}
+    r.counts = {'block_statements': len(out)}
+    return r
+
+
+def lean_dijk(r, path):
+    rel = os.path.basename(path)
+    f = r.fields or {'rowVar': '?', 'rowBound': '?', 'nodeVar': '?', 'nodeList': '?', 'body': '[]'}
+    a, b = r.parts.get('body', (r.line, r.line))
+    out = ['import BctVerif.Props.CoresDijk',
+           '/-!',
+           '# GENERATED by translate/cores.py (family dijk) — do not edit.  Re-emitted from the current source on every check run.',
+           'source: %s' % path,
+           '-/',
+           'set_option linter.unusedTactic false',
+           'set_option linter.unreachableTactic false',
+           'namespace Bct.Gen.CoresDijk',
+           'open Bct Bct.Dist Bct.CoreIR.Dijk Bct.Cores.Dijk',
+           '']
+    for p in r.problems:
+        out.append('-- NOT RECOGNISED: ' + p.replace('\n', ' '))
+    out.append('/-- the body of `for v in V:` of `distance_wei` (%s:%d-%d) -/' % (rel, a, b))
+    out.append('def ir_distance_wei_relax : RelaxIR :=\n  { recognised := %s, rowVar := %s, rowBound := %s, nodeVar := %s, nodeList := %s,\n    body :=\n     %s }\n' % (
+        'true' if not r.problems else 'false', q(f['rowVar']), q(f['rowBound']), q(f['nodeVar']), q(f['nodeList']), f['body']))
+    out.append('theorem distance_wei_relax_ok : relaxOk ir_distance_wei_relax = true := by\n  first | decide | fail "distance_wei_relax_ok: the relaxation '
+               'block of distance_wei (%s:%d-%d) %s"\n' % (rel, a, b, 'was not completely recognised by translate/cores.py' if r.problems
+                                                          else 'is not the expected statement list'))
+    out.append('theorem distance_wei_relax_computes {n : Nat} (L : AMat Ext n) (st : DSt n) (Dm Bm G1 : AMat V n) (u v : Fin n)\n'
+               '    (hD : ∀ w, Dm.get u w = .ext st.D[w]) (hB : ∀ w, Bm.get u w = .nat st.B[w])\n'
+               '    (hG : ∀ w, G1.get v w = g1cell L st.S v w) (hL : ∀ w q, L.get v w = .fin q → q ≠ 0) :\n'
+               '    ∃ D\' B\', runBlock ir_distance_wei_relax Dm Bm G1 u v = some (D\', B\') ∧\n'
+               '      (∀ w, D\'.get u w = .ext (relaxFrom L st v).D[w]) ∧ (∀ w, B\'.get u w = .nat (relaxFrom L st v).B[w]) ∧\n'
+               '      (∀ a w, a ≠ u → D\'.get a w = Dm.get a w ∧ B\'.get a w = Bm.get a w) :=\n'
+               '  link_relax _ distance_wei_relax_ok L st Dm Bm G1 u v hD hB hG hL\n')
+    out.append('end Bct.Gen.CoresDijk')
+    return '\n'.join(out) + '\n'
+
+
+def family_dijk():
+    path = os.path.join(common.REPO, 'bct', 'algorithms', 'distance.py')
+    fns, err = parse_functions(path)
+    name = 'distance_wei'
+    if name not in fns:
+        r = Routine(name, path); r.problems.append('%s: %s' % (name, err or 'function not found in ' + path))
+    else:
+        try:
+            r = extract_dijk(fns[name], path)
+            check_header(r, fns[name], fns)
+        except Exception as e:  # noqa — an extractor crash must not look like success
+            r = Routine(name, path); r.problems.append('%s: extractor raised %s: %s' % (name, type(e).__name__, e))
+    return {'module': 'BctVerif.Gen.CoresDijk', 'file': 'CoresDijk.lean', 'text': lean_dijk(r, path), 'sources': [path],
+            'routines': {'distance_wei (relaxation block)': dict(getattr(r, 'counts', {}), line=r.line, recognised=not r.problems)},
+            'problems': list(r.problems)}
+
+
 # ====================================================================== entry points
 
-FAMILIES = {'floyd': family_floyd, 'peel': family_peel, 'util': family_util, 'comp': family_comp}
+FAMILIES = {'floyd': family_floyd, 'peel': family_peel, 'util': family_util, 'comp': family_comp, 'dijk': family_dijk}
 
 
 def write_if_changed(path, text):
